@@ -68,6 +68,10 @@ def explicit(tier, seed):  # noqa: C901
         yield case("result-size-%d" % sz, [{"k": "step", "val": 1}], {"kind": "SUCCEEDED", "why": "size"}, prog_extra={"ret": {"big": sz - 2}})
     for sz in (6 * 1024 * 1024 - 200, 6 * 1024 * 1024 + 10):
         yield case("error-size-%d" % sz, [{"k": "raise", "cls": "ValueError", "msg": "e" * sz}], {"kind": "FAILED", "etype": "ValueError", "why": "big-error"})
+    # few characters, many bytes: results / errors made of non-ASCII text, and text made of characters JSON has to escape
+    for nch, ch in ((1_050_000, "\u6f22"), (2_200_000, "\u6f22"), (3_000_000, "\u00e9"), (3_200_000, "\u00e9"), (1_600_000, "\U0001F600"), (3_100_000, '"')):
+        yield case("result-size-nonascii-%d" % nch, [{"k": "step", "val": 1}], {"kind": "SUCCEEDED", "why": "size-nonascii"}, prog_extra={"ret": {"big": nch, "ch": ch}})
+    yield case("error-size-nonascii", [{"k": "raise", "cls": "ValueError", "msg": "\u6f22" * 2_300_000}], {"kind": "FAILED", "etype": "ValueError", "why": "big-error-nonascii"})
     # suspension
     yield case("pending-wait", [{"k": "wait", "s": 3}], {"kind": "SUCCEEDED", "why": "wait-then-done"})
     yield case("pending-callback-never", [{"k": "cb"}], {"kind": "PENDING", "why": "callback-outstanding"},
@@ -131,10 +135,10 @@ SPEC = Spec(
     thorough={"plain": 300, "enum": 30, "rand": 100, "async": 50, "perturb": 40},
     rule="handler behaviours x location (top level, child context, step body, parallel branch) x exception classes (user classes, "
     "ExecutionError, ValidationError, CallbackError, SerDesError, CallableRuntimeError, InvocationError, StepInterruptedError, BaseExceptions "
-    "in a branch) x result kinds (JSON, None, NaN, non-serializable, sizes around the 6 MB response limit, oversized errors) x malformed "
+    "in a branch) x result kinds (JSON, None, NaN, non-serializable, sizes around the 6 MB response limit in ASCII, CJK, accented, emoji and quote-heavy text, oversized errors) x malformed "
     "events and input payloads x checkpoint error category (5xx, 429, 4xx, Invalid Checkpoint Token, non-botocore) at every API call "
     "position of three program shapes, request-lost and response-lost, incl. the large-result checkpoint; plus random programs. Oracle: "
-    "outcome shape (Status + Result-JSON | Error object | neither, or an EXECUTION record when the payload is empty), raise only for "
+    "outcome shape (Status + Result-JSON | Error object | neither, or an EXECUTION record when the payload is empty), the outcome as encoded by the runtime fits the Lambda response limit, raise only for "
     "InvocationError-family / retriable checkpoint errors / malformed payloads, expected classification per scenario, no dex-handler "
     "thread alive afterwards, and the invocation ends (logical hang rule). A class = (scenario label, outcome kind).",
     deciding=lambda r: (r.get("stats") or {}).get("c18_outcomes", 0) > 0,
